@@ -71,9 +71,11 @@ type comment struct {
 	Depth  int    `json:"depth"`  // bracket depth at the comment
 	Same   bool   `json:"same"`   // on the same line as the token before it
 	Where  string `json:"where"`  // before-expr | before-closer | eof
+	Head   bool   `json:"head"`   // the expression it precedes is the first element of a bracketed list
 }
 
 type reading struct {
+	roots    []*node
 	tree     string
 	nodes    int
 	comments []comment
@@ -266,6 +268,7 @@ func analyse(text string) (*reading, error) {
 		if sb.Len() > 0 {
 			sb.WriteByte(' ')
 		}
+		rd.roots = append(rd.roots, n)
 		render(&sb, n)
 	}
 	rd.tree = sb.String()
@@ -300,18 +303,23 @@ func analyse(text string) (*reading, error) {
 		for n.parent != nil && n.parent.prefix && n.parent.kids[len(n.parent.kids)-1] == n {
 			n = n.parent
 		}
+		if p := n.parent; p != nil && !p.prefix && len(p.kids) > 0 && p.kids[0] == n {
+			return n.id, "before-expr:head"
+		}
 		return n.id, "before-expr"
 	}
 	if rd.hashbang {
 		a, where := anchorOf(start)
-		rd.comments = append(rd.comments, comment{Text: hb, Anchor: a, Where: where})
+		rd.comments = append(rd.comments, comment{Text: hb, Anchor: a, Where: strings.TrimSuffix(where, ":head")})
 	}
 	for j := start; j < len(toks); j++ {
 		if toks[j].typ != token.COMMENT {
 			continue
 		}
 		a, where := anchorOf(j)
-		rd.comments = append(rd.comments, comment{Text: toks[j].text, Anchor: a, Depth: depthAt[j], Same: j > start && toks[j].nl == 0, Where: where})
+		head := strings.HasSuffix(where, ":head")
+		where = strings.TrimSuffix(where, ":head")
+		rd.comments = append(rd.comments, comment{Text: toks[j].text, Anchor: a, Depth: depthAt[j], Same: j > start && toks[j].nl == 0, Where: where, Head: head})
 	}
 	return rd, nil
 }
@@ -406,6 +414,58 @@ type checkStats struct {
 	comments    int
 }
 
+// describeNode names a node for a class: its kind, and its text only for the
+// lisp: symbols the reader and printer treat specially.
+func describeNode(n *node) string {
+	if n == nil {
+		return "none"
+	}
+	switch n.kind {
+	case 'A':
+		if n.atom == "SYM" && strings.HasPrefix(n.text, "lisp:") {
+			return "SYM:" + n.text
+		}
+		return n.atom
+	case 'Q':
+		return "Q(" + describeNode(n.kids[0]) + ")"
+	}
+	return string(n.kind) + "(..)"
+}
+
+// diffSig walks two forests in lockstep and names the first difference:
+// "<input node>-><output node>@<position>".
+func diffSig(a, b []*node, parent *node) string {
+	pos := "@top"
+	if parent != nil {
+		pos = "@arg"
+		if parent.kind == 'Q' {
+			pos = "@quoted"
+		}
+	}
+	for i := 0; i < len(a) || i < len(b); i++ {
+		var x, y *node
+		if i < len(a) {
+			x = a[i]
+		}
+		if i < len(b) {
+			y = b[i]
+		}
+		at := pos
+		if i == 0 && parent != nil && parent.kind != 'Q' {
+			at = "@head"
+		}
+		if x == nil || y == nil || x.kind != y.kind || x.atom != y.atom || x.text != y.text {
+			return describeNode(x) + "->" + describeNode(y) + at
+		}
+		if len(x.kids) != len(y.kids) || x.kind != 'A' {
+			if d := diffSig(x.kids, y.kids, x); d != "" {
+				return d
+			}
+		}
+	}
+	return ""
+}
+
 func firstDiffClass(in, out string) string {
 	// classify a tree difference by the kind of the first differing atom
 	i := 0
@@ -452,17 +512,31 @@ func checkOutput(in *reading, inLV []*lisp.LVal, out string, strip bool) (fs []f
 	if err != nil {
 		return []finding{{Class: "output-rejected", Expected: "output the strict reader accepts", Got: fmt.Sprintf("%q: %v", out, err)}}, cmp
 	}
-	if d := programEqual(inLV, outLV); d != "" {
-		fs = append(fs, finding{Class: "tree-changed:lval", Expected: "identical typed trees", Got: fmt.Sprintf("%s; output %q", d, out)})
-	}
+	lvDiff := programEqual(inLV, outLV)
 	cmp++
 	or, err := analyse(out)
 	if err != nil {
+		if lvDiff != "" {
+			fs = append(fs, finding{Class: "tree-changed:lval:walker-failed", Expected: "identical typed trees", Got: fmt.Sprintf("%s; output %q", lvDiff, out)})
+		}
 		return append(fs, finding{Class: "harness:walker-output", Expected: "walker reads accepted output", Got: fmt.Sprintf("%v on %q", err, out)}), cmp
 	}
 	cmp++
+	sig := "walker-equal"
 	if or.tree != in.tree {
-		fs = append(fs, finding{Class: "tree-changed:" + firstDiffClass(in.tree, or.tree), Expected: in.tree, Got: fmt.Sprintf("%s; output %q", or.tree, out)})
+		sig = diffSig(in.roots, or.roots, nil)
+	}
+	switch {
+	case or.tree != in.tree:
+		got := fmt.Sprintf("%s; output %q", or.tree, out)
+		if lvDiff != "" {
+			got += "; strict parses differ too: " + lvDiff
+		} else {
+			got += "; the strict parses are equal (spelling / bracket kind only)"
+		}
+		fs = append(fs, finding{Class: "tree-changed:" + firstDiffClass(in.tree, or.tree) + ":" + sig, Expected: in.tree, Got: got})
+	case lvDiff != "":
+		fs = append(fs, finding{Class: "tree-changed:lval-only", Expected: "identical typed trees", Got: fmt.Sprintf("%s; output %q", lvDiff, out)})
 	}
 	if strip {
 		return fs, cmp
@@ -499,7 +573,11 @@ func checkOutput(in *reading, inLV []*lisp.LVal, out string, strip bool) (fs []f
 			Got: fmt.Sprintf("comments %s; output %q", commentTexts(or.comments), out)})
 		return fs, cmp
 	}
-	// ... and each one still before the same expression
+	// ... and each one still before the same expression (expression numbers are
+	// only comparable between equal trees; a changed tree is already reported)
+	if or.tree != in.tree {
+		return fs, cmp
+	}
 	for i := range in.comments {
 		a, b := in.comments[i], or.comments[i]
 		if a.Anchor >= 0 && a.Anchor != b.Anchor {
@@ -516,17 +594,39 @@ func checkOutput(in *reading, inLV []*lisp.LVal, out string, strip bool) (fs []f
 func feature(text string, in *reading) string {
 	switch {
 	case in.hashbang:
-		return "hash-bang"
+		return "hash-bang:" + commentTag(in)
 	case len(in.comments) > 0 && strings.Contains(text, "\n\n"):
-		return "comments+blank-lines"
+		return "comments+blank-lines:" + commentTag(in)
 	case len(in.comments) > 0:
-		return "comments"
+		return "comments:" + commentTag(in)
 	case strings.Contains(text, "\n\n"):
 		return "blank-lines"
 	case strings.Contains(text, "\n"):
 		return "multi-line"
 	}
 	return "one-line"
+}
+
+// commentTag names the most specific position any comment of the input stands
+// in: before the head of a list, before a closing bracket, at the end of the
+// file, or before some other expression.
+func commentTag(in *reading) string {
+	tag, rank := "no-comment", 0
+	for _, c := range in.comments {
+		t, r := "expr-comment", 1
+		switch {
+		case c.Head:
+			t, r = "head-comment", 4
+		case c.Where == "before-closer":
+			t, r = "closer-comment", 3
+		case c.Where == "eof":
+			t, r = "eof-comment", 2
+		}
+		if r > rank {
+			tag, rank = t, r
+		}
+	}
+	return tag
 }
 
 func commentTexts(cs []comment) string {
